@@ -477,7 +477,7 @@ func coordinate(ch *Check, tier string, seed int64) int {
 	procs := make([]*proc, n)
 	for i := 0; i < n; i++ {
 		cmd := exec.Command(selfExe(), ch.ID, tier, "--worker", fmt.Sprintf("%d/%d", i, n), "--out", tmp)
-		cmd.Stdout = os.Stderr
+		cmd.Stdout = nil // the library prints diagnostics of its own to stdout
 		lf, _ := os.Create(filepath.Join(tmp, fmt.Sprintf("w%d.stderr", i)))
 		cmd.Stderr = lf
 		cmd.Env = append(os.Environ(), "GOMAXPROCS=1", "GOGC=300")
@@ -601,6 +601,9 @@ func coordinate(ch *Check, tier string, seed int64) int {
 		if !isListed {
 			if confirmed >= 6 {
 				skippedKeys++
+				if os.Getenv("VERIF_VERBOSE") != "" {
+					fmt.Printf("  unreplayed class: %s (%d)  e.g. %s\n", k, merged.ViolKeys[k], clip(byKey[k][0].Witness, 200))
+				}
 				continue
 			}
 			confirmed++
